@@ -352,3 +352,21 @@ pub fn c20_columns_narrower_array_row() {
     cover!(true, "end reached");
     sym::forget((a, b));
 }
+
+// @h memw=6 prop=C20 tier=quick kind=proof inst="ColumnsRegion<MirrorRegion<u8>>: a NARROWER row pushed as PushIter (an iterator of cells) after a wider row" bounds="target holds a 3-cell row; a 1-cell row follows as PushIter([u8; 1]); symbolic cells" desc="the iterator form grows the column set like the slice form and never shrinks it"
+#[cfg_attr(kani, kani::proof, kani::unwind(12))]
+pub fn c20_columns_narrower_iter_row() {
+    let w = sym::bytes::<3>();
+    let n = sym::bytes::<1>();
+    let mut a = CR::default();
+    let mut b = CR::default();
+    let i0 = step!(a, b, w.as_slice(), w.as_slice());
+    let i1 = step!(a, b, PushIter(n), n.as_slice());
+    assert!(i0 == 0 && i1 == 1, "C20: rows pushed in iterator form do not get dense indices");
+    let wide = a.index(i0);
+    assert!(wide.len() == 3 && wide.get(1) == w[1] && wide.get(2) == w[2], "C20: a wider earlier row was damaged by pushing a narrower iterator row");
+    assert!(wide.iter().count() == 3, "C20: a wider earlier row iterates short after a narrower iterator row was pushed");
+    assert!(a.index(i1).len() == 1 && a.index(i1).get(0) == n[0], "C20: narrower iterator row reads differently");
+    cover!(true, "end reached");
+    sym::forget((a, b));
+}
